@@ -1,0 +1,9 @@
+//go:build !verif
+
+package utils
+
+// VerifYield is a verification hook; it is a no-op unless built with -tags verif.
+func VerifYield(point string, args ...uint64) {}
+
+// VerifPaused reports whether a verification harness paused the named activity.
+func VerifPaused(name string) bool { return false }
